@@ -42,8 +42,15 @@ fn main() {
     let seed: u64 = args[2].parse().unwrap();
     let n: usize = args[3].parse().unwrap();
     let mut out = util::Out::new(&args[4]);
-    // silence the default panic hook: panics are caught per case and reported as failures
-    std::panic::set_hook(Box::new(|_| {}));
+    // panics of the library are caught per case and reported as failures; only panics of the harness
+    // itself are printed
+    std::panic::set_hook(Box::new(|info| {
+        if let Some(loc) = info.location() {
+            if loc.file().starts_with("src/") {
+                eprintln!("harness panic at {}:{}: {}", loc.file(), loc.line(), info);
+            }
+        }
+    }));
     match prop {
         "C14" => c14::run(seed, n, &mut out),
         "C01" => c01::run(seed, n, &mut out),
